@@ -25,6 +25,7 @@ struct Handle {
 pub fn child_main(root: &Path) {
     let stdin = std::io::stdin();
     let mut handles: HashMap<u64, Handle> = HashMap::new();
+    let mut spawned: Vec<std::process::Child> = vec![];
     let muts = Arc::new(Mutex::new(0usize));
     if shim::available() {
         let m = muts.clone();
@@ -50,13 +51,47 @@ pub fn child_main(root: &Path) {
         let cmd = it.next().unwrap_or("");
         let h: u64 = it.next().and_then(|x| x.parse().ok()).unwrap_or(0);
         let reply = match cmd {
-            "open" | "openstats" => {
+            "cycle" => {
+                // drop the handle and open again at once, 20 times, Async mode: the lock must be free as soon as the
+                // last handle is gone (no background thread may keep it a little longer)
+                let mut res = "ok".to_string();
+                for _ in 0..20 {
+                    handles.remove(&h);
+                    match Cas::<String>::open_with_recover(root, Config { sync_mode: cassadilia::SyncMode::Async, ..Default::default() }) {
+                        Ok((cas, stats)) => {
+                            let _ = (|| -> Result<(), LibError> {
+                                let mut tx = cas.put("cyc".to_string())?;
+                                let _ = tx.write(b"x");
+                                tx.finish()
+                            })();
+                            handles.insert(h, Handle { cas: Some(cas), clones: vec![], stats });
+                        }
+                        Err(e) => {
+                            res = err_class(&e);
+                            break;
+                        }
+                    }
+                }
+                res
+            }
+            "spawn" => {
+                // a long-lived grandchild started while the handle is open: it must not inherit the directory lock
+                match std::process::Command::new("sleep").arg("20").stdin(std::process::Stdio::null()).stdout(std::process::Stdio::null()).spawn() {
+                    Ok(c) => {
+                        spawned.push(c);
+                        "ok".to_string()
+                    }
+                    Err(_) => "err".to_string(),
+                }
+            }
+            "open" | "openstats" | "openasync" => {
                 *muts.lock().unwrap() = 0;
-                let r: Result<(Cas<String>, Option<OrphanStats<String>>), LibError> = Cas::open_with_recover(root, Config::default());
+                let conf = if cmd == "openasync" { Config { sync_mode: cassadilia::SyncMode::Async, ..Default::default() } } else { Config::default() };
+                let r: Result<(Cas<String>, Option<OrphanStats<String>>), LibError> = Cas::open_with_recover(root, conf);
                 let m = *muts.lock().unwrap();
                 match r {
                     Ok((cas, stats)) => {
-                        let keep_cas = cmd == "open";
+                        let keep_cas = cmd != "openstats";
                         handles.insert(h, Handle { cas: if keep_cas { Some(cas) } else { None }, clones: vec![], stats });
                         format!("ok muts={m}")
                     }
@@ -102,6 +137,10 @@ pub fn child_main(root: &Path) {
                 None => "nohandle".to_string(),
             },
             "quit" => {
+                for c in spawned.iter_mut() {
+                    let _ = c.kill();
+                    let _ = c.wait();
+                }
                 println!("bye");
                 return;
             }
